@@ -15,7 +15,8 @@ def contains(x, name):
     return False
 
 
-ASPECTS = {'C01': {'status', 'value', 'failwith-value'}, 'C02': {'type'}}
+ASPECTS = {'C01': {'status', 'value', 'failwith-value'}, 'C02': {'type'}, 'C14': {'status', 'value', 'failwith-value'},
+           'C03': {'status', 'value', 'failwith-value'}}
 
 
 def replay_state(ctx, prop, famname, st, check=None, annotate=None, instr_annotate=None):
